@@ -1,84 +1,23 @@
 package c11
 
 import (
-	"bytes"
 	"fmt"
-	"go/ast"
-	"go/parser"
-	"go/printer"
 	"go/token"
-	"go/types"
 	"math/big"
-	"os"
 	"strings"
 
 	"github.com/goplus/gogen"
+
+	"verifengine/gx"
 )
 
 // big-number literals (XGo configuration): the emitted expression must denote exactly the written value.
 
-const mathBigStub = `package big
+const mathBigStub = gx.MathBigStub
 
-type Int struct{ v int }
+func biFixture() string { return gx.BiFixture() }
 
-func NewInt(x int64) *Int { return nil }
-
-func (z *Int) SetString(s string, base int) (*Int, bool) { return z, true }
-
-type Rat struct{ v int }
-
-func NewRat(a, b int64) *Rat { return nil }
-
-func (z *Rat) SetFrac(a, b *Int) *Rat { return z }
-
-type Float struct{ v int }
-`
-
-// biFixture is internal/builtin/big.go of the tree under test with every function body replaced by a panic:
-// the declarations (types, Init/Cast functions, operator methods) are what the lowering refers to.
-func biFixture() string {
-	repo := os.Getenv("VERIF_REPO")
-	if repo == "" {
-		repo = "/repo"
-	}
-	fset := token.NewFileSet()
-	f, err := parser.ParseFile(fset, repo+"/internal/builtin/big.go", nil, 0)
-	if err != nil {
-		panic("c11: cannot read the builtin big declarations: " + err.Error())
-	}
-	var decls []ast.Decl
-	for _, d := range f.Decls {
-		if fd, ok := d.(*ast.FuncDecl); ok {
-			fd.Body = &ast.BlockStmt{List: []ast.Stmt{&ast.ExprStmt{X: &ast.CallExpr{Fun: ast.NewIdent("panic"), Args: []ast.Expr{&ast.BasicLit{Kind: token.INT, Value: "0"}}}}}}
-			fd.Doc = nil
-		}
-		if gd, ok := d.(*ast.GenDecl); ok && gd.Tok == token.IMPORT {
-			continue
-		}
-		decls = append(decls, d)
-	}
-	f.Decls = append([]ast.Decl{&ast.GenDecl{Tok: token.IMPORT, Specs: []ast.Spec{&ast.ImportSpec{Path: &ast.BasicLit{Kind: token.STRING, Value: `"math/big"`}}}}}, decls...)
-	f.Comments = nil
-	f.Name = ast.NewIdent("bi")
-	var b bytes.Buffer
-	if err := printer.Fprint(&b, token.NewFileSet(), f); err != nil {
-		panic(err)
-	}
-	return b.String()
-}
-
-func bigConf(conf *gogen.Config) {
-	conf.NewBuiltin = func(pkg *gogen.Package, conf *gogen.Config) *types.Package {
-		bi := pkg.Import("bi") // through the package, so that its overloads are registered
-		named := func(n string) *types.Named { return bi.Ref(n).Type().(*types.Named) }
-		conf.UntypedBigInt = named("XGo_untyped_bigint")
-		conf.UntypedBigRat = named("XGo_untyped_bigrat")
-		conf.UntypedBigFloat = named("XGo_untyped_bigfloat")
-		builtin := types.NewPackage("", "")
-		gogen.InitBuiltin(pkg, builtin, conf)
-		return builtin
-	}
-}
+func bigConf(conf *gogen.Config) { gx.XGoConf(conf) }
 
 func bigIntLit(v *big.Int) string {
 	if v.IsInt64() {
